@@ -926,6 +926,10 @@ class Run:
         if self.quiet:
             return None
         dn = (["default"] + DNAMES)[rec["a"] % 6]
+        if self.case["root"]["k"] == "ins_dialect":
+            # a dialect-specific INSERT construct is only meant for its own dialect (compiling a sqlite Insert..ON CONFLICT on
+            # postgresql is a caller error, reported by an AttributeError inside the postgresql compiler)
+            dn = self.dnames[rec["a"] % len(self.dnames)]
         st_ = n.stmt()
         k0 = _keyprint(st_)
         a = _outcome(st_, dn)
